@@ -12,6 +12,8 @@ expected probe sequence is that skeleton expanded with the documented check poin
 follow it exactly up to the first false occurrence, raise the error class of that kind carrying that
 object and that condition, and run nothing afterwards.
 """
+import collections
+
 from ..symex import Eq
 from .. import chartgen as cg
 from ..steplib import Inst
@@ -64,17 +66,17 @@ def canary_job():
 
 
 def cond(kind, ident, which, j):
-    old = 'None, None' if which == 'pre' else '__old__.v, len(__old__.L)'
-    return "C(%r, %d, %r, %d, v, len(L), %s)" % (kind, ident, which, j, old)
+    old = 'None, None' if which == 'pre' else '__old__.v, len(__old__.L) * 1000 + len(__old__.Q)'
+    return "C(%r, %d, %r, %d, v, len(L) * 1000 + len(Q), %s)" % (kind, ident, which, j, old)
 
 
 def hook(kind, ident):
     if kind == 'entry':
-        return "P('en', %d)\nv = v + 1\nL.append(1)" % ident
+        return "P('en', %d)\nv = v + 1\nL.append(1)\nQ.append(1)" % ident
     if kind == 'exit':
-        return "P('ex', %d)\nv = v + 1\nL.append(1)" % ident
+        return "P('ex', %d)\nv = v + 1\nL.append(1)\nQ.append(1)" % ident
     if kind == 'action':
-        return "A(%d)\nv = v + 1\nL.append(1)" % ident
+        return "A(%d)\nv = v + 1\nL.append(1)\nQ.append(1)" % ident
     return None
 
 
@@ -127,8 +129,8 @@ def harness(g, chart, level, canary=False):
     def C_twin(*a):
         twin.log.append(('cond-evaluated-while-ignored',) + a[:4])
         return True
-    inst = Inst(g, chart, 'id', sc=(sc, trs, cm), extra_context={'C': C, 'v': v0, 'L': []}, tag='chk')
-    twin = Inst(g, chart, 'id', sc=(sc, trs, cm), extra_context={'C': C_twin, 'v': v0, 'L': []}, tag='ign',
+    inst = Inst(g, chart, 'id', sc=(sc, trs, cm), extra_context={'C': C, 'v': v0, 'L': [], 'Q': collections.deque()}, tag='chk')
+    twin = Inst(g, chart, 'id', sc=(sc, trs, cm), extra_context={'C': C_twin, 'v': v0, 'L': [], 'Q': collections.deque()}, tag='ign',
                 interp_kwargs={'ignore_contract': True})
     names = cm.names
     hist = []
@@ -254,15 +256,16 @@ def harness(g, chart, level, canary=False):
             if e in lookup and k < len(lookup[e]):
                 v, old = lookup[e][k]
                 conds.append(('probe_sees_current_v', Eq(sv[4], v), info))
-                conds.append(('probe_sees_current_list', Eq(v, v0 + sv[6]), info))
+                conds.append(('probe_sees_current_list', Eq(v, v0 + sv[6] // 1000) if sv[6] % 1000 == sv[6] // 1000 else False, info))
                 if e[3] != 'pre':
                     if old is None:
                         conds.append(('old_available', False, info))
                     else:
                         conds.append(('old_is_value_at_entry_or_transition_start', Eq(sv[5], old),
                                       lambda e=e: dict(info(), probe=str(e))))
-                        conds.append(('old_is_a_snapshot_not_an_alias', Eq(old, v0 + sv[7]),
-                                      lambda e=e: dict(info(), probe=str(e))))
+                        conds.append(('old_is_a_snapshot_not_an_alias',
+                                      Eq(old, v0 + sv[7] // 1000) if sv[7] % 1000 == sv[7] // 1000 else False,
+                                      lambda e=e: dict(info(), probe=str(e), old_list_and_deque=sv[7])))
                         g.witness('old_seen_by_state' if e[1] == 's' else 'old_seen_by_transition')
         if conds:
             g.prove_all(conds)
